@@ -453,16 +453,19 @@ Section Tree.
           + assert (Hit : forall y, fits_item c u ok (fits n) var y = true ->
                       g_item c u (gobj n) var y = g_prim c u var y /\ e_item c u (eobj n) var y = e_prim c u var y
                       /\ enc_shape (v_format var) y).
-            { intros y Hfy. destruct Hty2 as [[t' [Htys' [Hst _]]]|[Htys' _]].
+            { intros y Hfy. destruct Hty2 as [[t' [Htys' [Hst _]]]|[[Htys' _]|[Htys' _]]].
               - destruct (fits_item_simple c u ok _ var t' y Htys' Hst Hfy) as [p [-> Hp]].
                 repeat split. eapply es_leaf; exact Hp.
-              - destruct (fits_item_qname c u ok _ var y Htys' Hfy) as [q1 [-> _]]. repeat split. apply es_qname. }
+              - destruct (fits_item_qname c u ok _ var y Htys' Hfy) as [q1 [-> _]]. repeat split. apply es_qname.
+              - destruct (fits_item_any c u ok _ var y Htys' Hfy) as [sx [-> [Hp _]]].
+                repeat split. eapply es_leaf; exact Hp. }
             assert (Hitp : forall y, fits_item c u ok (fits n) var y = true -> exists p, y = VP p).
-            { intros y Hfy. destruct Hty2 as [[t' [Htys' [Hst _]]]|[Htys' _]].
+            { intros y Hfy. destruct Hty2 as [[t' [Htys' [Hst _]]]|[[Htys' _]|[Htys' _]]].
               - destruct (fits_item_simple c u ok _ var t' y Htys' Hst Hfy) as [p [-> _]]. eexists; reflexivity.
-              - destruct (fits_item_qname c u ok _ var y Htys' Hfy) as [q1 [-> _]]. eexists; reflexivity. }
+              - destruct (fits_item_qname c u ok _ var y Htys' Hfy) as [q1 [-> _]]. eexists; reflexivity.
+              - destruct (fits_item_any c u ok _ var y Htys' Hfy) as [sx [-> _]]. eexists; reflexivity. }
             assert (Htt : exists t, v_types var = [t])
-              by (destruct Hty2 as [[t [H1 _]]|[H1 _]]; eexists; eassumption).
+              by (destruct Hty2 as [[t [H1 _]]|[[H1 _]|[H1 _]]]; eexists; eassumption).
             destruct Htt as [t Htys].
             destruct Hsrc as [Hw|[f0 [t0 [l0 [Hf0 [Htf0 [_ [El Hil]]]]]]]]; cbn [fst snd] in *.
             2:{ rewrite El in Hfv0. unfold Fits.fits_elem in Hfv0. rewrite Hf0, Htf0 in Hfv0.
